@@ -142,6 +142,27 @@ proof fn lemma_seen_ok_grow(seen0: Set<String>, seen1: Set<String>, res1: Seq<St
         if !seen0.contains(x) { lemma_prefix_contains(res1, res2, x); }
     }
 }
+// ---------- termination: the number of same-file types not yet marked in `seen` decreases along every recursion path
+/// the lookup table is keyed by each item's own name (how topsort() builds it)
+pub open spec fn types_wf(types: Map<String, &RustItem>) -> bool {
+    forall|k: String| #[trigger] types.contains_key(k) ==> item_name(*types[k]) == k
+}
+pub open spec fn todo(types: Map<String, &RustItem>, seen: Set<String>) -> nat { types.dom().difference(seen).len() }
+proof fn lemma_todo_insert(types: Map<String, &RustItem>, seen: Set<String>, x: String)
+    requires types.contains_key(x), !seen.contains(x)
+    ensures todo(types, seen.insert(x)) < todo(types, seen)
+{
+    let d = types.dom().difference(seen);
+    assert(d.contains(x));
+    assert(types.dom().difference(seen.insert(x)) =~= d.remove(x));
+    vstd::set::lemma_set_remove_len(d, x);
+}
+proof fn lemma_todo_mono(types: Map<String, &RustItem>, s1: Set<String>, s2: Set<String>)
+    requires s1.subset_of(s2)
+    ensures todo(types, s2) <= todo(types, s1)
+{
+    vstd::set_lib::lemma_len_subset(types.dom().difference(s2), types.dom().difference(s1));
+}
 /// coverage established by a callee (w.r.t. the `seen` it started from and its own result) survives later pushes and
 /// holds w.r.t. the caller's initial `seen`
 proof fn lemma_cov_type_mono(tp: RustType, types: Map<String, &RustItem>, seen1: Set<String>, res1: Seq<String>, seen0: Set<String>, res2: Seq<String>)
@@ -156,14 +177,19 @@ proof fn lemma_cov_type_mono(tp: RustType, types: Map<String, &RustItem>, seen1:
 '''
 
 COMMON_REQ = '''
-    requires obeys_key_model::<String>()
+    requires obeys_key_model::<String>(), types_wf(types@)@OWNREQ@
     ensures
         is_prefix(old(res)@, final(res)@),
+        /*markers are never lost*/ old(seen)@.subset_of(final(seen)@),
         /*whatever is left marked in `seen` was marked before or is already recorded*/ seen_ok(old(seen)@, final(seen)@, final(res)@),
 '''
-NODEC = '#[verifier::exec_allows_no_decreases_clause]\n'
+NODEC = ''
 
-BASE = """proof { lemma_prefix_push(res_a, *id); }
+BASE = """proof {
+                        lemma_prefix_push(res_a, *id);
+                        assert(types@.contains_key(*id)); assert(item_name(**tp) == *id);     // types_wf: the entry found under `id` is the item named `id`
+                        lemma_todo_insert(types@, seen0, *id);                                 // one more same-file type is marked: the measure drops
+                    }
                     let ghost res_b = res@;
                     """
 AFTER_BASE = """
@@ -171,7 +197,8 @@ AFTER_BASE = """
 
 FROM_TYPE = [
     ins(A.text('fn get_dependencies_from_type'), NODEC, where='before'),
-    ins(A.sig(), COMMON_REQ + """        /*C11*/ cov_type(*tp, types@, old(seen)@, final(res)@),
+    ins(A.sig(), COMMON_REQ.replace('@OWNREQ@', '') + """        /*C11*/ cov_type(*tp, types@, old(seen)@, final(res)@),
+    decreases todo(types@, old(seen)@), 0int, *tp
 """, cid='get_dependencies_from_type.contract'),
     ins(A.body_start(), """
     broadcast use vstd::std_specs::hash::group_hash_axioms;
@@ -189,14 +216,22 @@ FROM_TYPE = [
     ins(A.text('for parameter in'), ' it:'),
     ins(A.loop(0), """
                 invariant
-                    obeys_key_model::<String>(),
+                    obeys_key_model::<String>(), types_wf(types@), seen0.subset_of(seen@), seen0 == old(seen)@,
+                    *tp == (RustType::Generic { id: *id, parameters: *parameters }),
                     is_prefix(res0, res@), seen_ok(seen0, seen@, res@),
                     (types@.contains_key(*id) && !seen0.contains(*id)) ==> res@.contains(*id),
                     forall|k: int| 0 <= k < it.index@ ==> cov_type(#[trigger] parameters@[k], types@, seen0, res@),
             """, cid='get_dependencies_from_type.generic_args_invariant'),
     ins(A.loop_body(0), """
                 let ghost res_c = res@;
-                let ghost seen_c = seen@;"""),
+                let ghost seen_c = seen@;
+                proof {
+                    lemma_todo_mono(types@, seen0, seen_c);
+                    assert(parameters@[it.index@] == *parameter);
+                    assert(decreases_to!(*tp => tp->parameters)); assert(tp->parameters == *parameters);
+                    assert(decreases_to!(*tp => *parameters)); assert(decreases_to!(*parameters => parameters@));
+                    assert(decreases_to!(parameters@ => parameters@[it.index@]));   // a generic argument is a strict sub-term of the type
+                }"""),
     ins(A.text('get_dependencies_from_type(parameter, types, res, seen);'), """
                 proof {
                     lemma_prefix_trans(res0, res_c, res@);
@@ -224,6 +259,7 @@ FROM_TYPE = [
     # ---- Special arm
     ins(A.text('get_dependencies_from_type(vt, types, res, seen);'), """let ghost res_k = res@;
                 let ghost seen_k = seen@;
+                proof { lemma_todo_mono(types@, seen0, seen_k); }
                 """, where='before'),
     ins(A.text('get_dependencies_from_type(vt, types, res, seen);'), """
                 proof {
@@ -247,15 +283,14 @@ FROM_TYPE = [
                     }
                 }""", where='after'),
     ins(A.text('_ => {}'), """ /*other special types mention nothing*/""", where='after'),
-    ins(A.text('seen.remove(&tp.id().to_string());'), """proof { assert(is_prefix(res0, res@)); assert(cov_type(*tp, types@, seen0, res@)); }
-    """, where='before'),
-    rep(A.text('tp.id().to_string()'), 'outlined_type_id(tp)', tag='T3', cid='o_tid',
-        note='RustType::id + ToString: the removed key only shrinks `seen`'),
+    ins(A.body_end(), """proof { assert(is_prefix(res0, res@)); assert(cov_type(*tp, types@, seen0, res@)); }
+"""),
 ]
 
 ENUM = [
     ins(A.text('fn get_enum_dependencies'), NODEC, where='before'),
-    ins(A.sig(), COMMON_REQ + '''        /*C11*/ !old(seen)@.contains(enum_name(*enm)) ==> cov_item(RustItem::Enum(*enm), types@, old(seen)@, final(res)@),
+    ins(A.sig(), COMMON_REQ.replace('@OWNREQ@', ', types@.contains_key(enum_name(*enm))') + '''        /*C11*/ !old(seen)@.contains(enum_name(*enm)) ==> cov_item(RustItem::Enum(*enm), types@, old(seen)@, final(res)@),
+    decreases todo(types@, old(seen)@), 1int
 ''', cid='get_enum_dependencies.contract'),
     ins(A.body_start(), '''
     broadcast use vstd::std_specs::hash::group_hash_axioms;
@@ -270,7 +305,8 @@ ENUM = [
     ins(A.text('for variant in'), ' it:'),
     ins(A.loop(0), """
                     invariant
-                        obeys_key_model::<String>(), own == shared.id.original, sown == seen0.insert(own),
+                        obeys_key_model::<String>(), types_wf(types@), own == shared.id.original, sown == seen0.insert(own),
+                        sown.subset_of(seen@), !seen0.contains(own), types@.contains_key(own), seen0 == old(seen)@,
                         is_prefix(res0, res@), seen_ok(sown, seen@, res@),
                         forall|k: int| 0 <= k < it.index@ ==> cov_variant(#[trigger] shared.variants@[k], types@, sown, res@),
                 """, cid='get_enum_dependencies.variants_invariant'),
@@ -281,13 +317,15 @@ ENUM = [
     ins(A.text('for field in'), ' it2:'),
     ins(A.loop(1), """
                                 invariant
-                                    obeys_key_model::<String>(), sown == seen0.insert(own),
+                                    obeys_key_model::<String>(), types_wf(types@), sown == seen0.insert(own),
+                                    sown.subset_of(seen@), !seen0.contains(own), types@.contains_key(own), seen0 == old(seen)@,
                                     is_prefix(res0, res@), is_prefix(res_v, res@), seen_ok(sown, seen@, res@),
                                     forall|j: int| 0 <= j < it2.index@ ==> cov_type((#[trigger] fields@[j]).ty, types@, sown, res@),
                             """, cid='get_enum_dependencies.fields_invariant'),
     ins(A.loop_body(1), """
                                 let ghost res_c = res@;
-                                let ghost seen_c = seen@;"""),
+                                let ghost seen_c = seen@;
+                                proof { lemma_todo_insert(types@, seen0, own); lemma_todo_mono(types@, sown, seen_c); }"""),
     ins(A.text('get_dependencies_from_type(&field.ty, types, res, seen)'), """;
                                 proof {
                                     lemma_prefix_trans(res0, res_c, res@); lemma_prefix_trans(res_v, res_c, res@); lemma_prefix_refl(res@);
@@ -304,6 +342,7 @@ ENUM = [
                                 }
                             }"""),
     ins(A.text('get_dependencies_from_type(ty, types, res, seen)'), """let ghost seen_c = seen@;
+                            proof { lemma_todo_insert(types@, seen0, own); lemma_todo_mono(types@, sown, seen_c); }
                             """, where='before'),
     ins(A.text('get_dependencies_from_type(ty, types, res, seen)'), """;
                             proof {
@@ -330,7 +369,8 @@ ENUM = [
 
 STRUCT = [
     ins(A.text('fn get_struct_dependencies'), NODEC, where='before'),
-    ins(A.sig(), COMMON_REQ + '''        /*C11*/ !old(seen)@.contains(strct.id.original) ==> cov_item(RustItem::Struct(*strct), types@, old(seen)@, final(res)@),
+    ins(A.sig(), COMMON_REQ.replace('@OWNREQ@', ', types@.contains_key(strct.id.original)') + '''        /*C11*/ !old(seen)@.contains(strct.id.original) ==> cov_item(RustItem::Struct(*strct), types@, old(seen)@, final(res)@),
+    decreases todo(types@, old(seen)@), 1int
 ''', cid='get_struct_dependencies.contract'),
     ins(A.body_start(), '''
     broadcast use vstd::std_specs::hash::group_hash_axioms;
@@ -344,13 +384,15 @@ STRUCT = [
     ins(A.text('for field in'), ' it:'),
     ins(A.loop(0), """
             invariant
-                obeys_key_model::<String>(), own == strct.id.original,
+                obeys_key_model::<String>(), types_wf(types@), own == strct.id.original,
+                seen0.insert(own).subset_of(seen@), !seen0.contains(own), types@.contains_key(own), seen0 == old(seen)@,
                 is_prefix(res0, res@), seen_ok(seen0.insert(own), seen@, res@),
                 forall|k: int| 0 <= k < it.index@ ==> cov_type((#[trigger] strct.fields@[k]).ty, types@, seen0.insert(own), res@),
         """, cid='get_struct_dependencies.invariant'),
     ins(A.loop_body(0), """
             let ghost res_c = res@;
-            let ghost seen_c = seen@;"""),
+            let ghost seen_c = seen@;
+            proof { lemma_todo_insert(types@, seen0, own); lemma_todo_mono(types@, seen0.insert(own), seen_c); }"""),
     ins(A.text('get_dependencies_from_type(&field.ty, types, res, seen)'), """;
             proof {
                 lemma_prefix_trans(res0, res_c, res@); lemma_prefix_refl(res@);
@@ -370,7 +412,8 @@ STRUCT = [
 
 ALIAS = [
     ins(A.text('fn get_type_alias_dependencies'), NODEC, where='before'),
-    ins(A.sig(), COMMON_REQ + '''        /*C11*/ !old(seen)@.contains(ta.id.original) ==> cov_item(RustItem::Alias(*ta), types@, old(seen)@, final(res)@),
+    ins(A.sig(), COMMON_REQ.replace('@OWNREQ@', ', types@.contains_key(ta.id.original)') + '''        /*C11*/ !old(seen)@.contains(ta.id.original) ==> cov_item(RustItem::Alias(*ta), types@, old(seen)@, final(res)@),
+    decreases todo(types@, old(seen)@), 1int
 ''', cid='get_type_alias_dependencies.contract'),
     ins(A.body_start(), '''
     broadcast use vstd::std_specs::hash::group_hash_axioms;
@@ -382,6 +425,7 @@ ALIAS = [
     rep(A.text('ta.id.original.to_string()', nth=1), 'outlined_name_alias(ta)', tag='T3', cid='o_nalias'),
     rep(A.text('ta.id.original.to_string()', nth=2), 'outlined_name_alias(ta)', tag='T3', cid='o_nalias'),
     ins(A.text('get_dependencies_from_type(&ta.r#type, types, res, seen);'), """let ghost seen_a = seen@;
+        proof { lemma_todo_insert(types@, seen0, own); }
         """, where='before'),
     ins(A.text('get_dependencies_from_type(&ta.r#type, types, res, seen);'), """
         let ghost res_a = res@;
@@ -389,11 +433,12 @@ ALIAS = [
     ins(A.text('for generic in'), ' it:'),
     ins(A.loop(0), """
             invariant
-                obeys_key_model::<String>(), is_prefix(res0, res@), is_prefix(res_a, res@), seen_ok(seen0.insert(own), seen@, res@),
+                obeys_key_model::<String>(), types_wf(types@), is_prefix(res0, res@), is_prefix(res_a, res@), seen_ok(seen0.insert(own), seen@, res@),
+                seen0.insert(own).subset_of(seen@), !seen0.contains(own), types@.contains_key(own), seen0 == old(seen)@,
         """, cid='get_type_alias_dependencies.invariant'),
     ins(A.loop_body(0), """
             let ghost res_c = res@;
-            proof { lemma_prefix_refl(res_c); }"""),
+            proof { lemma_prefix_refl(res_c); lemma_todo_insert(types@, seen0, own); lemma_todo_mono(types@, seen0.insert(own), seen@); }"""),
     ins(A.loop_end(0), """
             proof { lemma_prefix_trans(res0, res_c, res@); lemma_prefix_trans(res_a, res_c, res@); }
         """),
@@ -408,7 +453,8 @@ ALIAS = [
 
 CONST = [
     ins(A.text('fn get_const_dependencies'), NODEC, where='before'),
-    ins(A.sig(), COMMON_REQ + '''        /*C11*/ !old(seen)@.contains(c.id.original) ==> cov_item(RustItem::Const(*c), types@, old(seen)@, final(res)@),
+    ins(A.sig(), COMMON_REQ.replace('@OWNREQ@', ', types@.contains_key(c.id.original)') + '''        /*C11*/ !old(seen)@.contains(c.id.original) ==> cov_item(RustItem::Const(*c), types@, old(seen)@, final(res)@),
+    decreases todo(types@, old(seen)@), 1int
 ''', cid='get_const_dependencies.contract'),
     ins(A.body_start(), '''
     broadcast use vstd::std_specs::hash::group_hash_axioms;
@@ -416,13 +462,16 @@ CONST = [
     let ghost seen0 = seen@;
     proof { lemma_prefix_refl(res0); }
 '''),
+    ins(A.text('get_dependencies_from_type(&c.r#type, types, res, seen);'), '''proof { lemma_todo_insert(types@, seen0, c.id.original); }
+        ''', where='before'),
     rep(A.text('c.id.original.to_string()', nth=1), 'outlined_name_const(c)', tag='T3', cid='o_nconst'),
     rep(A.text('c.id.original.to_string()', nth=2), 'outlined_name_const(c)', tag='T3', cid='o_nconst'),
 ]
 
 DEPS = [
     ins(A.text('fn get_dependencies'), NODEC, where='before'),
-    ins(A.sig(), COMMON_REQ + '''        /*C11: every same-file type the item mentions is recorded*/ !old(seen)@.contains(item_name(*thing)) ==> cov_item(*thing, types@, old(seen)@, final(res)@),
+    ins(A.sig(), COMMON_REQ.replace('@OWNREQ@', ', types@.contains_key(item_name(*thing))') + '''        /*C11: every same-file type the item mentions is recorded*/ !old(seen)@.contains(item_name(*thing)) ==> cov_item(*thing, types@, old(seen)@, final(res)@),
+    decreases todo(types@, old(seen)@), 2int
 ''', cid='get_dependencies.contract'),
 ]
 
@@ -452,7 +501,6 @@ UNIT = Unit(
         Item('get_dependencies', TS, ['fn get_dependencies'], DEPS),
     ],
     outlines={
-        'o_tid': {'decl': 'fn outlined_type_id(tp: &RustType) -> (r: String)', 'compile': False},
         'o_nshared': 'fn outlined_name_shared(shared: &RustEnumShared) -> (r: String)\n    ensures r == shared.id.original',
         'o_nstruct': 'fn outlined_name_struct(strct: &RustStruct) -> (r: String)\n    ensures r == strct.id.original',
         'o_nalias': 'fn outlined_name_alias(ta: &RustTypeAlias) -> (r: String)\n    ensures r == ta.id.original',
@@ -461,9 +509,10 @@ UNIT = Unit(
     functions=['get_dependencies_from_type', 'get_enum_dependencies', 'get_struct_dependencies', 'get_type_alias_dependencies',
                'get_const_dependencies', 'get_dependencies'],
     trusted=[
-        'TERMINATION of the collector is NOT proved (#[verifier::exec_allows_no_decreases_clause] on the six mutually recursive functions)',
+        'termination of the collector IS proved (measure: number of same-file types not yet marked in `seen`, then call level, then the type term) '
+        'under the precondition types_wf: the lookup table is keyed by each item\'s own name (true by construction in topsort(); glue not under contract)',
         'axiom: String obeys vstd\'s hash-table key model; vstd contracts of HashMap::get, HashSet::insert/remove, Vec::push, String::clone',
-        'outlined (T3): `x.id.original.to_string()` returns an equal String; `tp.id().to_string()` (the key removed at the end) is uninterpreted',
+        'outlined (T3): `x.id.original.to_string()` returns an equal String',
         'T7 stubs: DecoratorMap, FieldDecorator, SupportedLanguage, RustConstExpr',
     ],
     undecided=[
